@@ -295,6 +295,12 @@ def dropAuto (g : Graph) (k : Option Nat) : Graph :=
     | none => g
   | none => g
 
+/-- `isinstance(x, DataArray)`: any other object is handed to `create_data_array(data=x)`, where
+NumPy wraps it in an object array that `create_dataset` refuses (TypeError) -/
+def normArr (g : Graph) : ArrArg → ArrArg
+  | .ref k => if isKind g k "data_array" then .ref k else .data (some { stage := .entity, err := .typeError })
+  | a => a
+
 def createMultiTagW (g : Graph) (blockPath : Path) (name type : String) (pos ext : ArrArg) : Reached :=
   match resolve g rootLoc blockPath with
   | none => (g, some .keyError)
@@ -308,7 +314,7 @@ def createMultiTagW (g : Graph) (blockPath : Path) (name type : String) (pos ext
         else
           -- try:
           let (g1, p?) : Graph × Except Err (Nat × Bool) :=
-            match pos with
+            match normArr g pos with
             | .ref k => (g, .ok (k, false))
             | .absent => (g, .error .valueError)        -- create_data_array(data=None) refuses first
             | .data f =>
@@ -319,7 +325,7 @@ def createMultiTagW (g : Graph) (blockPath : Path) (name type : String) (pos ext
           | .error e => (g1, some e)                    -- nothing of ours exists yet
           | .ok (pk, pcreated) =>
             let (g2, e?) : Graph × Except Err (Option Nat × Bool) :=
-              match ext with
+              match normArr g1 ext with
               | .ref k => (g1, .ok (some k, false))
               | .absent => (g1, .ok (none, false))
               | .data f =>
